@@ -4,11 +4,18 @@ from vf.props import common as C
 def plan(tier):
     conds = []
     conds += C.t_instr_conds("C09", tier)
+    from vf.driver import Cond
+    kinds = ("Idle", "ChargingStation", "ReserveBase", "DispatchTrip")
+    for case in range(16):
+        if case == 15:
+            continue
+        conds.append(Cond("vf.h.h_instr2", "h_other", case=case, timeout=600, label=f"H09-other[v0 {kinds[case // 4]}, v1 {kinds[case % 4]}]", weight=8))
+    conds.append(Cond("vf.h.h_instr2", "h_prec", case=0, timeout=900, label="H09-precedence", weight=40))
     return {
         "conds": conds,
         "min_classes": 150,
-        "explanation": 'C09: an applied instruction either puts the vehicle into the instructed activity with its side effects (counters, request record, applied_instructions) touching nothing but the vehicle and its old/new targets, or leaves the whole simulation state structurally unchanged.',
-        "entry_points": ['step_simulation_ops.apply_instructions'],
+        "explanation": 'C09: an applied instruction either puts the vehicle into the instructed activity with its side effects (counters, request record, applied_instructions) touching nothing but the vehicle and its old/new targets, or leaves the whole simulation state structurally unchanged. H09-other: two instructions in one call, one rejected: the joint result equals the accepted one alone. H09-precedence: real StepSimulation.update with three stub generators emitting symbolic instructions and the vehicle's own driver: exactly one instruction is logged and applied per vehicle -- the driver's if it spoke, else the last generator's.',
+        "entry_points": ['step_simulation_ops.apply_instructions', 'StepSimulation.update', 'instruction_generator_ops.generate_instructions', 'DictOps.add_to_stack_dict/pop_from_stack_dict', 'AutonomousAvailable.generate_instruction'],
         "bounds": C.ARENA_BOUNDS + C.T_BOUNDS,
         "outside": C.T_OUTSIDE,
         "stubs": C.STUBS_COMMON + C.STUBS_UPD,
